@@ -23,8 +23,8 @@ type HostSpec struct {
 	DC      string   `json:"dc"`
 	Rack    string   `json:"rack"`
 	Tokens  []string `json:"tokens"`
-	Version string   `json:"version"` // release_version
-	Peer    string   `json:"peer,omitempty"` // node-to-node address (system.peers.peer / system.local.broadcast_address); "" = IP
+	Version string   `json:"version"`           // release_version
+	Peer    string   `json:"peer,omitempty"`    // node-to-node address (system.peers.peer / system.local.broadcast_address); "" = IP
 	NoAddr  bool     `json:"no_addr,omitempty"` // the peers row carries no usable address: peer null, rpc_address 0.0.0.0
 }
 
@@ -175,16 +175,16 @@ func (n *Node) OpenConns() int {
 
 // Cluster is a set of nodes plus the dialer the driver uses.
 type Cluster struct {
-	mu       sync.Mutex
-	nodes    map[string]*Node // by "ip:port"
-	order    []*Node
-	seq      int64
-	connSeq  int64
-	Proto    int
-	PlanFor  func(addr string, nth int) Plan // fault plan of the nth connection to addr
-	dials    map[string]int
-	truth    []HostSpec // what system.local / system.peers report (defaults to the nodes' specs)
-	PeersErr *cqlspec.Response
+	mu        sync.Mutex
+	nodes     map[string]*Node // by "ip:port"
+	order     []*Node
+	seq       int64
+	connSeq   int64
+	Proto     int
+	PlanFor   func(addr string, nth int) Plan // fault plan of the nth connection to addr
+	dials     map[string]int
+	truth     []HostSpec // what system.local / system.peers report (defaults to the nodes' specs)
+	PeersErr  *cqlspec.Response
 	alias     map[string]string // public "ip:port" -> key in nodes
 	aliasOnly bool
 	PeersV2   bool // a Cassandra 4 cluster: system.peers_v2 exists (peer_port, native_address, native_port), system.local has the *_port columns
